@@ -20,7 +20,7 @@ from harness import core
 from harness.props import _crew_common as CC
 
 MANIFEST_ENTRY = {
-    "text": "Lean theorem C10 proves over the cost model built on the crew-day model: the daily row's cost = sum over methods of (deployment cost + upfront on the first day) + the program's own repair cost, natural-repair cost separate (row_identity); a per-site method's deployment cost of a day = sum over the surveys completed that day of the site's survey cost (method cost when the site cost is 0), for every deployment type, crew count and work plan (the four method classes share the loop; that they do is established by the four-class correspondence, not in Lean) incl. surveys that exhaust the crew, weather aborts and partial surveys (per_site_once), and exactly once over the days of a resumed survey (per_site_once_multiday); per-day methods pay unit cost x deployed crews, stationary x planned sites (per_day_once); over a run the upfront cost x crews is contained exactly once (upfront_once, upfront_amount) and is a function of the method parameters alone however many methods were built before from the same dict (upfront_frame); each program repair books its cost exactly once, on the day the leak turns repaired, natural repairs go to the other column (repair_once, repair_on_repair_day), and at program level the repair column of the rows sums over a run to the costs of exactly the leaks the program repaired (program_repairs_once); one step of the multi-day charge model is deployDay on that day's one-request plan (surveyCostRun_step_is_deployDay); a program without methods costs nothing (no_methods_no_cost). The model follows the code after two fix: commits (component-level per-site charge on completion; stationary component-level daily cost per planned site). Tied on every run to the real constructors, deploy_crews of all four method classes, the real row functions, the first_day wiring read from ldar_sim.py, and the real repair booking; the clauses are evaluated directly on implementation outputs; whole simulations compare timeseries cost columns with wrapper counts.",
+    "text": "Lean theorem C10 proves over the cost model built on the crew-day model: the daily row's cost = sum over methods of (deployment cost + upfront on the first day) + the program's own repair cost, natural-repair cost separate (row_identity); a per-site method's deployment cost of a day = sum over the surveys completed that day of the site's survey cost (method cost when the site cost is 0), for every deployment type, crew count and work plan (the four method classes share the loop; that they do is established by the four-class correspondence, not in Lean) incl. surveys that exhaust the crew, weather aborts and partial surveys (per_site_once), and exactly once over the days of a resumed survey (per_site_once_multiday); per-day methods pay unit cost x deployed crews, stationary x planned sites (per_day_once); over a run the upfront cost x crews is contained exactly once (upfront_once, upfront_amount) and is a function of the method parameters alone however many methods were built before from the same dict (upfront_frame); each program repair books its cost exactly once, on the day the leak turns repaired, natural repairs go to the other column (repair_once, repair_on_repair_day), and at program level the repair column of the rows sums over a run to the costs of exactly the leaks the program repaired (program_repairs_once); one step of the multi-day charge model is deployDay on that day's one-request plan (surveyCostRun_step_is_deployDay); a program without methods costs nothing (no_methods_no_cost); table obligation cost_no_cross_case_state (regenerated from /repo every run: only the two read-only dispatch tables are class-level containers, nothing shared is mutated or cached, known pickle hooks only); same-process history with colliding method names/site ids/dates in both orders and in a fresh process, construction sequences from one shared properties dict, multi-valued repair-cost lists, debug and pool mode whole runs. The model follows the code after two fix: commits (component-level per-site charge on completion; stationary component-level daily cost per planned site). Tied on every run to the real constructors, deploy_crews of all four method classes, the real row functions, the first_day wiring read from ldar_sim.py, and the real repair booking; the clauses are evaluated directly on implementation outputs; whole simulations compare timeseries cost columns with wrapper counts.",
     "design_ref": "DESIGN.md 5.10, 4.2, 4.1",
     "note": "trusted: Lean kernel + propext/Classical.choice/Quot.sound; hand-written model tied by sampled/exhaustive correspondence; harness adapters and stubs; costs are integers in the model (integer-valued floats are exact in the implementation); sampled repair cost lists (random.choice) are inputs; CSV float formatting (%.5f) of the timeseries is outside; 'monitored site-day' = planned site-day of a stationary method (DESIGN 5.10); 'deployed crew-day' = a crew sent to at least one site with workable weather, also when it then has no time left to travel (method.py:343-344 sets site_visit before the time test)",
     "technique": "Lean 4 proofs over the cost/crew/emission models + differential correspondence with the real classes + direct oracle (+ whole-run trace oracle)",
@@ -47,7 +47,8 @@ FILE = "LdarModel/Props/C10.lean"
 # ------------------------------------------------------------------------------------------------
 def random_mday(rng, size):
     d = CC.random_day(rng, size)
-    (cls, stationary, cost_type, unit_cost, budget, crews, cw, reqs, upfront) = d
+    (cls, stationary, cost_type, unit_cost, budget, crews, cw, reqs, upfront) = d[:9]
+    opts = d[9] if len(d) > 9 else {}
     kind = rng.random()
     if kind < 0.45:
         per_day, per_site = 0, rng.choice([5, 50, 200])
@@ -59,7 +60,7 @@ def random_mday(rng, size):
         per_day, per_site = rng.choice([-1, 0]), rng.choice([3, 64])
     if not stationary and crews == 0:
         crews = 1
-    return (cls, stationary, per_day, per_site, upfront, budget, crews, cw, reqs)
+    return (cls, stationary, per_day, per_site, upfront, budget, crews, cw, reqs, opts)
 
 
 def f5_family(rng):
@@ -94,8 +95,8 @@ def expected_select(per_day, per_site):
 
 
 def oracle_mday(ctx, case, r):
-    (cls, stationary, per_day, per_site, upfront, budget, crews, cw, reqs) = case
-    inp = {"mday": [cls, stationary, per_day, per_site, upfront, budget, crews, cw, [C_req_json(q) for q in reqs]],
+    (cls, stationary, per_day, per_site, upfront, budget, crews, cw, reqs) = case[:9]
+    inp = {"mday": [cls, stationary, per_day, per_site, upfront, budget, crews, cw, [C_req_json(q) for q in reqs]] + list(case[9:]),
            "impl": {"cost": r.stats.deployment_cost, "reports": {k: list(v) for k, v in r.reports.items()},
                     "crews": [list(c) for c in r.crews]}}
     ct, unit = expected_select(per_day, per_site)
@@ -174,19 +175,29 @@ def oracle_repair(ctx, case, per_day, status, em):
     (start, nrd, delay, n, cost, events) = case[:6]
     inp = {"repair": [start, nrd, delay, n, cost, [list(e) for e in events]] + list(case[6:]),
            "impl": [[a, b] for (a, b, _, _) in per_day], "status": status[-1] if status else None}
+    from harness.adapters import cost as K
+
     rep_total = sum(a for (a, _, _, _) in per_day)
     nat_total = sum(b for (_, b, _, _) in per_day)
-    by = getattr(em, "_tagged_by_company", None)
-    repaired = bool(status) and status[-1] == "repaired"
-    prog = repaired and by is not None and by != "natural"
+    # expectation from the emission's output record (status, tagged by, repair date), not from its
+    # private bookkeeping
+    (st_out, by, rep_day) = K.repair_summary(em, n)
+    repaired = st_out == "repaired"
+    prog = repaired and by not in (None, "natural", "N/A", "")
     natural = repaired and by == "natural"
-    if rep_total != (cost if prog else 0) or nat_total != (cost if natural else 0):
+    costs = list(cost) if isinstance(cost, (list, tuple)) else [cost]
+    inp["record"] = [st_out, str(by), rep_day]
+    if (prog and rep_total not in costs) or (not prog and rep_total != 0) or \
+            (natural and nat_total not in costs) or (not natural and nat_total != 0):
         ctx.violate("C10:repair:not-once", "repair cost booked != once per program repair / natural repair cost mixed in", inp)
         return
     for k, (a, b, _, _) in enumerate(per_day):
-        turned = status[k] == "repaired" and (k == 0 or status[k - 1] != "repaired")
-        if (a != 0 or b != 0) != (turned and cost != 0):
-            ctx.violate("C10:repair:wrong-day", "repair cost booked on a day other than the repair day", inp)
+        on_repair_day = repaired and rep_day is not None and k == rep_day - 1
+        if (a != 0 or b != 0) and not on_repair_day:
+            ctx.violate("C10:repair:wrong-day", "repair cost booked on a day other than the day before the record's repair date", inp)
+            return
+        if on_repair_day and 0 not in costs and a == 0 and b == 0:
+            ctx.violate("C10:repair:wrong-day", "nothing booked on the repair day of a repaired leak", inp)
             return
 
 
@@ -271,7 +282,7 @@ def stage_mday(ctx):
         ctx.evaluations += 1
         if il != ml:
             ctx.disagree("cost.mday/" + c[0], {"mday": [c[0], c[1], c[2], c[3], c[4], c[5], c[6], c[7],
-                                                        [C_req_json(q) for q in c[8]]]}, ml, il)
+                                                        [C_req_json(q) for q in c[8]]] + list(c[9:])}, ml, il)
             ctx.count("disagree")
         oracle_mday(ctx, c, r)
         exhausted = any(t["last"] and t["after"][3] for t in r.trace)
@@ -327,10 +338,14 @@ def stage_rows(ctx):
     for _ in range(ctx.pick(3000, 60000)):
         n = ctx.rng.choice([0, 1, 1, 2, 3, 5])
         ms = [(ctx.rng.choice([0, 5, 64, 1000]), ctx.rng.choice([0, 0, 512, 2500])) for _ in range(n)]
-        rows.append((ctx.rng.random() < 0.5, ms, ctx.rng.choice([0, 0, 200, 448]), ctx.rng.choice([0, 200, 64])))
-    model = core.LeanDriver("drv_cost").run([K.row_line(*r) for r in rows])
+        names = ctx.rng.sample(CC.METHOD_NAMES, n) if ctx.rng.random() < 0.6 else None
+        rows.append((ctx.rng.random() < 0.5, ms, ctx.rng.choice([0, 0, 200, 448]), ctx.rng.choice([0, 200, 64]), names))
+    model = core.LeanDriver("drv_cost").run([K.row_line(*r[:4]) for r in rows])
     for r, ml in zip(rows, model):
-        res = K.impl_row(*r)
+        res = CC.guarded(ctx, "cost.row", {"row": [r[0], [list(m) for m in r[1]], r[2], r[3]], "names": r[4]},
+                         lambda: K.impl_row(r[0], r[1], r[2], r[3], names=r[4]))
+        if res is None:
+            continue
         ctx.evaluations += 1
         if K.row_reply(res) != ml:
             ctx.disagree("cost.row", {"row": [r[0], [list(m) for m in r[1]], r[2], r[3]]}, ml, K.row_reply(res))
@@ -399,10 +414,14 @@ def stage_repair(ctx):
             cases[k] = cases[k] + (True, ctx.rng.randint(1, 4), ctx.rng.randint(1, 4))
     model = core.LeanDriver("drv_cost").run([K.repair_line(*c) for c in cases])
     for c, ml in zip(cases, model):
-        per_day, status, em = K.impl_repair(*c)
+        got = CC.guarded(ctx, "cost.repair", {"repair": [c[0], c[1], c[2], c[3], c[4], [list(e) for e in c[5]]] + list(c[6:])},
+                         lambda: K.impl_repair(*c))
+        if got is None:
+            continue
+        per_day, status, em = got
         ctx.evaluations += 1
-        il = K.repair_reply(per_day)
-        if il != ml:
+        il = CC.guarded(ctx, "cost.repair", {"repair": list(c[:5])}, lambda: K.repair_reply(per_day))
+        if il is not None and il != ml:
             ctx.disagree("cost.repair", {"repair": [c[0], c[1], c[2], c[3], c[4], [list(e) for e in c[5]]] + list(c[6:])}, ml, il)
         oracle_repair(ctx, c, per_day, status, em)
         if not c[5] and any(a != 0 for (a, _, _, _) in per_day):
@@ -413,7 +432,54 @@ def stage_repair(ctx):
         if len(c) > 6:
             ctx.count("repair:intermittent")
         ctx.count("repair:" + (status[-1] if status else "-") + "/" + ("natural" if by == "natural" else "company" if by else "-"))
+    # multi-valued repair-cost lists (the default has one value): the amount is drawn at booking time,
+    # so only the oracle applies: one member of the list, once, on the repair day
+    for c in cases[:: ctx.pick(6, 3)]:
+        lst = ctx.rng.choice([[64, 128, 256], [200, 200], [5, 0], [7]])
+        c2 = (c[0], c[1], c[2], c[3], lst, c[5]) + tuple(c[6:])
+        got = CC.guarded(ctx, "cost.repair-list", {"repair": [c2[0], c2[1], c2[2], c2[3], lst, [list(e) for e in c2[5]]]},
+                         lambda: K.impl_repair(*c2))
+        if got is None:
+            continue
+        ctx.evaluations += 1
+        oracle_repair(ctx, c2, *got)
+        ctx.count("repair:cost-list")
     ctx.traces += len(cases)
+
+
+def stage_history(ctx):
+    """LESSONS 1: colliding keys, differing values, both orders, fresh process"""
+    from harness.adapters import crew as C
+    from harness.props import _crew_history as H
+
+    n_seq = ctx.pick(60, 600)
+    fresh_items, fresh_ref = [], []
+    for k in range(n_seq):
+        name = ctx.rng.choice(CC.METHOD_NAMES)
+        date = ctx.rng.choice(CC.BOUNDARY_DATES)
+        items = []
+        for _ in range(ctx.rng.randint(2, 4)):
+            m = list(random_mday(ctx.rng, ctx.rng.choice(["tiny", "small"])))
+            # collide: same method name, same date, same site ids 0..n-1, same class of objects
+            m[8] = [(i,) + tuple(q[1:]) for i, q in enumerate(m[8])]
+            m[9] = {"name": name, "date": date}
+            items.append(["mday", m[:8] + [[C.req_json(q) for q in m[8]]] + [m[9]]])
+        names = ctx.rng.sample(CC.METHOD_NAMES, 3)
+        for _ in range(2):
+            ms = [[ctx.rng.choice([0, 5, 64]), ctx.rng.choice([0, 512])] for _ in names]
+            items.append(["row", ctx.rng.random() < 0.5, ms, ctx.rng.choice([0, 200]), ctx.rng.choice([0, 64]), names])
+        for _ in range(2):
+            items.append(["constructs", 0, ctx.rng.choice([5, 50]), ctx.rng.choice([100, 3000]),
+                          [[ctx.rng.choice(CC.CLASSES), False, ctx.rng.choice([1, 2, 3])] for _ in range(2)]])
+        ctx.rng.shuffle(items)
+        n, fwd = H.check_orders(ctx, "C10", items, "cost")
+        ctx.evaluations += n
+        if k < ctx.pick(12, 60):
+            fresh_items += items
+            fresh_ref += fwd
+        ctx.nontrivial.add(("history", len(items), name in ("kept", "NA", "Logs"), date[5:]))
+    ctx.evaluations += H.check_fresh(ctx, "C10", fresh_items, "cost", fresh_ref)
+    ctx.traces += n_seq
 
 
 def wholerun_oracle(ctx):
@@ -427,6 +493,20 @@ def wholerun_oracle(ctx):
     W.run_c10(ctx)
 
 
+def regenerate_tables(ctx):
+    """Generated/CrewCost.lean from the current /repo; an unexpected code shape is a broken obligation,
+    the rest of the check still runs"""
+    try:
+        from harness.extract import crewcost
+
+        st, changed = crewcost.regenerate()
+        ctx.extra["crewcost_table"] = {k: len(v) for k, v in st.items()}
+        if changed:
+            ctx.note("regenerated " + ", ".join(changed))
+    except Exception as e:   # noqa: BLE001
+        ctx.broke("extract Generated/CrewCost.lean", "%s: %s" % (type(e).__name__, e))
+
+
 def run(ctx):
     ctx.rule = ("cost blocks: per_day in {-1,0,2,10} x per_site in {absent,-1,0,3,50} x upfront x deployment x crews "
                 "(exhaustive, 4 classes); sequences of 2..5 constructions from one shared properties dict; method days: the F5 family (survey that exhausts the crew, weather abort, "
@@ -435,6 +515,7 @@ def run(ctx):
                 "x first-day flag x repair costs, programs of 1..6 days with the first_day wiring read from ldar_sim.py; "
                 "repairs: structured-exhaustive emission cases (subsampled) + random with cost; whole runs: generated "
                 "configurations. non-trivial = distinct (stage, class, cost type, outcome shape) keys")
+    regenerate_tables(ctx)
     core.lean_stage(ctx, MODULE, FILE, drivers=["drv_cost", "drv_crew"])
     stage_select(ctx)
     stage_constructs(ctx)
@@ -442,6 +523,7 @@ def run(ctx):
     stage_multiday(ctx)
     stage_rows(ctx)
     stage_repair(ctx)
+    stage_history(ctx)
     wholerun_oracle(ctx)
     ctx.assumptions.append("costs integer-valued (exact in float arithmetic); repair cost lists sampled by random.choice are inputs")
     ctx.assumptions.append("model follows /repo after the fix: commits listed in findings.d/C10.json")
@@ -454,7 +536,7 @@ def replay(ctx, data):
     D = core.LeanDriver("drv_cost")
     if "mday" in inp:
         m = inp["mday"]
-        case = (m[0], m[1], m[2], m[3], m[4], m[5], m[6], m[7], [C_req_from_json(q) for q in m[8]])
+        case = (m[0], m[1], m[2], m[3], m[4], m[5], m[6], m[7], [C_req_from_json(q) for q in m[8]]) + tuple(m[9:])
         r = K.impl_mday(case)
         print("impl :", K.mday_reply(r), "| reports", r.reports, "| crews", r.crews)
         print("model:", D.run([K.mday_line(case)])[0])
@@ -510,6 +592,10 @@ def replay(ctx, data):
         if res[0] != (charge if res[1] else 0):
             ctx.violate("C10:per_site:double-charge-on-resume" if res[0] > charge else "C10:per_site:multiday-other",
                         "not charged exactly once", inp)
+    elif "history" in inp:
+        from harness.props import _crew_history as H
+
+        H.replay(ctx, "C10", inp)
     elif "wholerun" in inp:
         from harness.props import _crew_wholerun as W
 
